@@ -156,6 +156,70 @@ def run(prog):
         if n < floor:
             out.append(inst("WC", "%s:callers" % tname, UNDECIDED, None, None, "only %d callers found (expected >= %d)" % (n, floor)))
     out += owned_state(prog)
+    out += stored_edges(prog)
+    return out
+
+
+EDGE_READERS = {
+    # functions that read the stored edges of a BddNode directly, and why that is all right
+    "low": "the accessor: applies the pointer's complement", "high": "the accessor: applies the pointer's complement",
+    "low_raw": "the raw accessor (named so)", "high_raw": "the raw accessor (named so)",
+    "clear_scratch": "visits the node, sign-agnostic", "semantic_hash": "BddNode's own hash of the stored function",
+    "get_or_insert": "normalises the stored high edge", "smooth_helper": "rebuilds the stored node",
+    "print_bdd": "prints the stored node", "mut_fold_h": "folds the stored node and applies the sign at the pointer",
+}
+
+
+def stored_edges(prog):
+    """A BddNode stores its two edges for the *regular* pointer to it, and either edge may itself be complemented.
+    Everything outside the accessors that follows `node.low` / `node.high` itself has to look at that edge's sign (and at
+    the sign of the pointer it came through).  A function outside the accepted readers that reads one of the two edges
+    and never asks for its sign follows a possibly complemented edge as if it were regular."""
+    out = []
+    for fn in prog.lib_fns:
+        if "::test" in fn.npath or fn.name.startswith("test_") or (fn.impl_trait or "").startswith(("std::", "core::", "serde::")):
+            continue
+        te = fn.terms
+        terms = []
+        for cs in te.calls:
+            terms += list(cs.args)
+        terms += [c for _, (c, _) in te.switch_term.items()]
+        terms += [v for (_, _, v, _) in te.stores]
+        if te.ret is not None:
+            terms.append(te.ret)
+        for ups in te.mu_update.values():
+            terms += list(ups)
+        reads = {}
+        for t in terms:
+            for x in [t] + list(mir.subterms(t)) if isinstance(t, tuple) else []:
+                if isinstance(x, tuple) and x and x[0] == "field" and x[2] in ("low", "high") and len(x) > 3 and "BddNode" in str(x[3]):
+                    reads.setdefault(x[2], x)
+        if not reads:
+            continue
+        root = _root(fn)
+        if root in EDGE_READERS or _only_from(prog, fn, lambda w: _root(w) in EDGE_READERS):
+            continue
+        for fld, ft in sorted(reads.items()):
+            asked = False
+            for cs in te.calls:
+                if cs.callee.name in ("is_neg", "is_compl", "neg", "low", "high", "low_raw", "high_raw") and cs.args and \
+                        any(isinstance(y, tuple) and y and y[0] == "field" and y[2] == fld and len(y) > 3 and "BddNode" in str(y[3])
+                            for y in [strip(cs.args[0])] + list(mir.subterms(cs.args[0]))):
+                    asked = True
+            for _, (c, vm) in te.switch_term.items():
+                c0 = strip(c)
+                if c0[0] == "discr" and any(isinstance(y, tuple) and y and y[0] == "field" and y[2] == fld and len(y) > 3 and "BddNode" in str(y[3])
+                                            for y in mir.subterms(c0)) and vm and len(set(vm.values())) > 2:
+                    asked = True
+            key = "bdd-edges:%s<-%s" % (fld, root)
+            if asked:
+                out.append(inst("WC", key, OK, fn, None, "%s reads the stored %s edge and asks for its sign" % (root, fld)))
+            else:
+                out.append(inst("WC", key, VIOLATION, fn, None,
+                                "`%s` reads the stored `%s` edge of a BddNode and never asks whether that edge is complemented: "
+                                "a stored edge may be complemented (the semantic d-DNNF store keeps nodes as given; low edges are "
+                                "complemented everywhere), so the function follows ¬g as if it were g.  The accepted direct "
+                                "readers are %s" % (root, fld, ", ".join(sorted(EDGE_READERS)))))
     return out
 
 
